@@ -41,13 +41,15 @@ pub fn alphabet(cs: u32) -> Vec<Op> {
     for p in ["d", "D", "d/e", "e", "a", "x:y", "nodir/e", "long-name-1.txt/z"] {
         a.push(Op::CreateDir { base: r, path: s(p), keep: None });
     }
-    for p in ["a", "A", "LONG-N~1.TXT", "long-n~2.txt", "d/a", "d", "zz"] {
+    // ("LONG-NAME-1.TXT": a long name that does not fit 8.3 looked up in another case - only the long-name
+    // comparison can answer)
+    for p in ["a", "A", "LONG-N~1.TXT", "long-n~2.txt", "LONG-NAME-1.TXT", "d/a", "d", "zz"] {
         a.push(Op::OpenFile { base: r, path: s(p), keep: None });
     }
     for p in ["", "d", "D/E", "a"] {
         a.push(Op::List { base: r, path: s(p) });
     }
-    for p in ["a", "b.txt", "long-name-1.txt", "d", "d/e", "d/a", "zz", "D"] {
+    for p in ["a", "b.txt", "long-name-1.txt", "Long-Name-2.txt", "d", "d/e", "d/a", "zz", "D"] {
         a.push(Op::Remove { base: r, path: s(p) });
     }
     for (p, q) in [
@@ -61,6 +63,9 @@ pub fn alphabet(cs: u32) -> Vec<Op> {
         ("d", "d/loop"),
         ("long-name-1.txt", "long-name-2.txt"),
         ("long-name-1.txt", "LONG-N~1.TXT"),
+        ("long-name-1.txt", "LONG-NAME-1.TXT"),
+        // destination exists and lies inside the moved directory
+        ("d", "d/e"),
         ("zz", "c"),
         ("a", "nodir/c"),
         ("d/a", "a"),
@@ -105,6 +110,15 @@ pub fn specs(tier: &str) -> Vec<ExpSpec> {
     }
     // FAT32 cluster numbers above 0xFFFF (directories and moved entries start there)
     v.push(ExpSpec::new(vol::t32_high(), alphabet(512), if th { 3 } else { 2 }));
+    // advancing clock: the entries of directories (and of temporaries) are written back with new stamps, so a
+    // write-back that lands in a slot that was deleted or moved meanwhile changes the tree
+    for ft in [FatType::Fat12, FatType::Fat32] {
+        let mut c = vol::tiny_with(ft, 8, 16);
+        c.name = format!("{}-clock-atime", c.name);
+        c.ticking = true;
+        c.atime = true;
+        v.push(ExpSpec::new(c, alphabet(512), if th { 4 } else { 3 }));
+    }
     // geometry grid (sector 512..4096 x cluster 1..128 sectors x FAT12/16/32 x 1-2 FATs x small/large root), depth 2
     for c in crate::c03::grid(th) {
         let cs = {
